@@ -115,6 +115,33 @@ def gen_op(R: Draw, g: DocGen, lib: Any, doc_node: Any, kinds: list[str] | None 
     use = R.bool(steer)
     if kind in ("add_mark", "remove_mark", "add_node_mark", "remove_node_mark") and not rs.mark_names:
         kind = "delete"
+    if use and kind in ("replace", "replace_range", "replace_with", "insert") and rs.mark_names and R.bool(0.12):
+        # marked inline content sent into a textblock that forbids (some of) its marks: the fitter has to strip exactly
+        # the forbidden ones
+        from ..ref import marks as rm
+
+        spots = []
+        for pos, nd in _node_positions(doc_node):
+            if nd.is_textblock:
+                forb = [m for m in rs.mark_names if not rs.allows_mark(nd.type.name, m)]
+                if forb:
+                    spots.append((pos, nd, forb))
+        if spots:
+            pos, nd, forb = R.choice(spots)
+            ms: list = []
+            for m in R.shuffle(list(rs.mark_names)):
+                if m in forb or R.bool(0.4):
+                    ms = rm.ref_add(rs, g.mark(R, m), ms)
+            piece = P.mk("text", {}, None, ms, g.text(R))
+            a = R.int(pos + 1, pos + nd.node_size - 1)
+            b = R.int(a, min(pos + nd.node_size - 1, a + R.int(0, 3)))
+            if kind in ("replace_with", "insert"):
+                return {"op": kind, "from": a, "to": b, "content": [piece]} if kind == "replace_with" else {"op": kind, "pos": a, "content": [piece]}
+            hosts = [t for t in rs.node_names if rs.textblock.get(t) and all(rs.allows_mark(t, m[0]) for m in ms) and rs.generatable[t]]
+            if hosts and R.bool(0.5):
+                h = R.choice(hosts)
+                return {"op": kind, "from": a, "to": b, "slice": {"c": [P.mk(h, rs.default_attrs("node", h) or {}, [piece])], "os": 1, "oe": 1}}
+            return {"op": kind, "from": a, "to": b, "slice": {"c": [piece], "os": 0, "oe": 0}}
     if kind == "replace" or kind == "replace_range":
         a, b = _landmark_range(R, doc_node, n) if use and R.bool(0.45) else _positions(R, n)
         return {"op": kind, "from": a, "to": b, "slice": gs.rand_slice(R, g, R.choice(["tiny", "small"])) if R.bool(0.8) else gs.closed_slice(R, g)}
@@ -131,14 +158,38 @@ def gen_op(R: Draw, g: DocGen, lib: Any, doc_node: Any, kinds: list[str] | None 
         if R.bool(0.5):
             b = a
         node = _node_content(R, g)[0]
-        if use and R.bool(0.3):
+        if use and R.bool(0.45):
             # an insertion point search: a cursor at the start / end of a textblock (or in an empty one) and a block
             # node of a type that some ancestor - not necessarily the nearest - accepts
             ends = [q for pos, nd in _node_positions(doc_node) if nd.is_textblock for q in (pos + 1, pos + nd.node_size - 1)]
             anc = sorted({nd.type.name for _, nd in _node_positions(doc_node) if not nd.is_inline and not nd.is_text})
             if ends and anc:
                 a = b = R.choice(ends)
-                node = g.node(R, R.choice(anc), 1, 4)
+                tname = R.choice(anc)
+                if R.bool(0.7):
+                    # prefer (cursor, type) pairs where the nearest container refuses the type and an outer one takes
+                    # it: the search has to climb (the library's own predicate is used for steering only)
+                    climbs = []
+                    for e in R.sample(ends, min(len(ends), 6)):
+                        rp = quiet(doc_node.resolve, e)
+                        if rp is None or rp.depth < 2:
+                            continue
+                        at_end = e == rp.end()
+                        for t in anc:
+                            accepts = []
+                            beyond = []  # siblings on the far side of the cursor at each level
+                            for d in range(rp.depth - 1, -1, -1):
+                                i = rp.index_after(d) if at_end else rp.index(d)
+                                accepts.append(bool(quiet(rp.node(d).can_replace_with, i, i, lib.nodes[t], default=False)))
+                                beyond.append(rp.node(d).child_count - i if at_end else i)
+                            if not accepts[0] and any(accepts[1:]):
+                                k = accepts.index(True)
+                                climbs.append((min(max(beyond[:k]), 2), e, t))
+                    if climbs:
+                        cls = R.choice(sorted({c[0] for c in climbs}))  # 0, 1 or more siblings in the way
+                        _c, e, tname = R.choice([c for c in climbs if c[0] == cls])
+                        a = b = e
+                node = g.node(R, tname, 1, 4)
         return {"op": kind, "from": a, "to": b, "node": node}
     if kind in ("add_mark", "remove_mark"):
         a, b = _positions(R, n, 16)
